@@ -78,3 +78,17 @@ extern "C" void h_request_history(void) {
    for (int k = 0; k < C11_K; ++k) vp_assert(&lx.get_qualified(ipr::Qualifiers(acc[k]), *w->T[base[k]]) == res[k], 32);       // the one-step request is the same node
    vp_done();
 }
+// an operand that was qualified by ANOTHER Lexicon (the built-in types are common to all Lexicons, so such a node can reach a fresh
+// Lexicon as its very first request): the result is still in normal form within the Lexicon asked
+extern "C" void h_foreign_operand(void) {
+   impl::Lexicon* a = new impl::Lexicon; impl::Lexicon* b = new impl::Lexicon;
+   uint64_t q1 = 1 + vp_pick(7), q2 = 1 + vp_pick(7);
+   const ipr::Type& base = vp_flag() ? static_cast<const ipr::Type&>(a->int_type()) : a->get_pointer(a->char_type());
+   const ipr::Qualified& foreign = a->get_qualified(ipr::Qualifiers(q1), base);
+   if (vp_flag()) (void)b->get_qualified(b->const_qualifier(), b->bool_type());           // b may or may not have qualified anything yet
+   const ipr::Qualified& r = b->get_qualified(ipr::Qualifiers(q2), foreign);
+   vp_assert(!is_qualified(r.main_variant()) && &r.main_variant() == &base, 40);
+   vp_assert(util::rep(r.qualifiers()) == (q1 | q2), 41);
+   vp_assert(&r == &b->get_qualified(ipr::Qualifiers(q1 | q2), base), 42);
+   vp_done();
+}
